@@ -389,6 +389,7 @@ class Interp:
         self.calls = []  # (callee short, chain)
         self.notes = []
         self.loops = []  # loop summaries (for C08)
+        self.handled = []  # (ExcInfo, handler function) caught raises
         self.fresh = itertools.count(1)
         if not hasattr(prog, '_dynamic_globals'):
             prog._dynamic_globals = self._find_dynamic_globals()
@@ -707,7 +708,10 @@ class Interp:
             value, raises = summ
             self.calls.append((fi.short + ' [summarised]', self.chain()))
             for et, why in raises:
+                n0 = len(self.pending)
                 self.raise_pending(state, et, node, why)
+                for po in self.pending[n0:]:
+                    po.exc.chain = po.exc.chain + (fi.short,)
             return value
         if any(f is fi for f, _ in self.stack):
             return self.recursive_call(fi, args, kwargs, state, node)
@@ -1455,6 +1459,8 @@ class Interp:
                 match = any(self.exc_matches(o.exc.type, x) for x in hts)
             if match:
                 s = o.state
+                self.handled.append((o.exc, self.cur_func.short if
+                                     self.cur_func else '?'))
                 if h.name:
                     s.env[h.name] = Sym('caught', o.exc.type,
                                         next(self.fresh))
